@@ -261,3 +261,135 @@ theorem lookup_eq_histBin (edges : List K) (x : K) (hs : edges.Pairwise (· ≤ 
 end order
 
 end C10
+
+/-! ## the pd cache of `MultiDimGridPDF` with event subsets -/
+
+open Pdf
+
+namespace C10
+
+theorem pick_zipWith {α β γ : Type} (f : α → β → γ) (m : List Bool) (a : List α) (b : List β) :
+    pick m (List.zipWith f a b) = List.zipWith f (pick m a) (pick m b) := by
+  induction m generalizing a b with
+  | nil => cases a <;> cases b <;> simp [pick]
+  | cons h m ih =>
+    cases a with
+    | nil => cases h <;> simp [pick]
+    | cons x xs =>
+      cases b with
+      | nil => cases h <;> simp [pick]
+      | cons y ys => cases h <;> simp [pick, ih]
+
+/-- a cache entry is either a placeholder or the target value -/
+def Rel {α : Type} (o : Option α) (t : α) : Prop := o = none ∨ o = some t
+
+theorem forall2_scatter {α : Type} (m : List Bool) (c : List (Option α)) (t : List α)
+    (h : List.Forall₂ Rel c t) : List.Forall₂ Rel (scatter m (pick m t) c) t := by
+  induction m generalizing c t with
+  | nil => cases c <;> simpa [scatter] using h
+  | cons b m ih =>
+    cases h with
+    | nil => cases b <;> simp [scatter, pick]
+    | cons hr hrest =>
+      cases b with
+      | true => simp only [pick, scatter]; exact List.Forall₂.cons (Or.inr rfl) (ih _ _ hrest)
+      | false => simp only [pick, scatter]; exact List.Forall₂.cons hr (ih _ _ hrest)
+
+theorem allSome_pick {α : Type} (m : List Bool) (c : List (Option α)) (t : List α)
+    (h : List.Forall₂ Rel c t) (vs : List α) (hv : allSome (pick m c) = some vs) : vs = pick m t := by
+  induction m generalizing c t vs with
+  | nil => cases c <;> cases t <;> simp_all [pick, allSome]
+  | cons b m ih =>
+    cases h with
+    | nil => cases b <;> simp_all [pick, allSome]
+    | cons hr hrest =>
+      rename_i o tv cs ts
+      cases b with
+      | false => simp only [pick] at hv ⊢; exact ih _ _ hrest vs hv
+      | true =>
+        simp only [pick] at hv ⊢
+        cases o with
+        | none => simp [allSome] at hv
+        | some x =>
+          simp only [allSome, Option.map_eq_some_iff] at hv
+          obtain ⟨rest, hrest', rfl⟩ := hv
+          rcases hr with hr | hr
+          · cases hr
+          · cases hr
+            rw [ih _ _ hrest rest hrest']
+
+theorem forall2_replicate {α : Type} (t : List α) : List.Forall₂ Rel (List.replicate t.length (none : Option α)) t := by
+  induction t with
+  | nil => simp
+  | cons x xs ih => simp only [List.length_cons, List.replicate_succ]; exact List.Forall₂.cons (Or.inl rfl) ih
+
+theorem pick_all {α : Type} (xs : List α) : pick (List.replicate xs.length true) xs = xs := by
+  induction xs with
+  | nil => simp [pick]
+  | cons x xs ih => simp only [List.length_cons, List.replicate_succ, pick, ih]
+
+end C10
+
+namespace C10
+variable {F : Type} [Mul F]
+
+def GMInv (raw norm : Nat → List F) (s : GMState F) : Prop :=
+  ∀ id c, s.key = some id → s.cache = some c →
+    List.Forall₂ Rel c (List.zipWith (· * ·) (raw id) (norm id))
+
+theorem gmInv_store (raw norm : Nat → List F) (id : Nat) (X : List (Option F))
+    (hX : List.Forall₂ Rel X (List.zipWith (· * ·) (raw id) (norm id))) :
+    GMInv raw norm { key := some id, cache := some X } := by
+  intro id' c' hk hc
+  simp only [Option.some.injEq] at hk hc
+  subst hk; subst hc; exact hX
+
+theorem gmEval_spec (cacheOn : Bool) (raw norm : Nat → List F) (s : GMState F) (id : Nat)
+    (mask : Option (List Bool)) (hn : (norm id).length = (raw id).length)
+    (hm : ∀ m, mask = some m → m.length = (raw id).length) (h : GMInv raw norm s) :
+    (gmEval true cacheOn raw norm s id mask).2 =
+      (pick (mask.getD (List.replicate (raw id).length true))
+        (List.zipWith (· * ·) (raw id) (norm id))).map some ∧
+    GMInv raw norm (gmEval true cacheOn raw norm s id mask).1 := by
+  set m := mask.getD (List.replicate (raw id).length true) with hmdef
+  set t := List.zipWith (· * ·) (raw id) (norm id) with htdef
+  have hmlen : m.length = t.length := by
+    have h1 : m.length = (raw id).length := by
+      rw [hmdef]
+      cases mask with
+      | none => simp
+      | some m' => simpa using hm m' rfl
+    rw [h1, htdef]; simp [hn]
+  have hpd : List.zipWith (· * ·) (pick m (raw id)) (pick m (norm id)) = pick m t := by
+    rw [htdef, pick_zipWith]
+  -- the miss branch, for an arbitrary old cache content c0 that is consistent with the target
+  have hmiss : ∀ c0, List.Forall₂ Rel c0 t →
+      GMInv raw norm { key := some id, cache := some (scatter m (pick m t) c0) } :=
+    fun c0 hc0 => gmInv_store raw norm id _ (forall2_scatter m c0 t hc0)
+  unfold gmEval
+  simp only [Bool.not_true, Bool.false_and, Bool.false_eq_true, if_false, ← hmdef, hpd]
+  cases cacheOn with
+  | false => simp only [Bool.false_eq_true, if_false]; exact ⟨by first | rfl | trivial, h⟩
+  | true =>
+    simp only [if_true]
+    by_cases hk : s.key = some id
+    · simp only [hk, if_true]
+      cases hc : s.cache with
+      | none =>
+        simp only
+        refine ⟨by first | rfl | trivial, hmiss _ ?_⟩
+        rw [hmlen]; exact forall2_replicate t
+      | some c =>
+        have hct := h id c hk hc
+        simp only
+        cases ha : allSome (pick m c) with
+        | none => simp only [Option.map_none]; exact ⟨by first | rfl | trivial, hmiss c hct⟩
+        | some vs =>
+          simp only [Option.map_some]
+          rw [allSome_pick m c t hct vs ha]
+          exact ⟨by first | rfl | trivial, h⟩
+    · simp only [hk, if_false]
+      refine ⟨by first | rfl | trivial, hmiss _ ?_⟩
+      rw [hmlen]; exact forall2_replicate t
+
+end C10
